@@ -196,12 +196,22 @@ def variable_to_string(variable_type, var_value):
         # large, and quite pointless, instead we just get the size of the collection
         return 'Size: %s' % len(var_value)
     else:
-        try:
-            # everything else just gets a string value
-            return str(var_value)
-        except Exception:
-            # it is possible for str to fail if there is a custom __str__ function
-            return f'{type(var_value)}@{id(var_value)}'
+        return safe_str(var_value)
+
+
+def safe_str(var_value):
+    """
+    Convert a value to a string, without raising an error if the value cannot be converted.
+
+    :param var_value: the variable value
+    :return: a string of the value
+    """
+    try:
+        # everything else just gets a string value
+        return str(var_value)
+    except Exception:
+        # it is possible for str to fail if there is a custom __str__ function
+        return f'{type(var_value)}@{id(var_value)}'
 
 
 def process_variable(var_collector: Collector, node: NodeValue) -> VariableResponse:
